@@ -68,6 +68,8 @@ type summary struct {
 	Notes       map[string]any    `json:"notes"`
 	Partial     bool              `json:"partial,omitempty"`
 	Unstable    int               `json:"unstable_runs"`
+	KnownHits   map[string]string `json:"known_hits,omitempty"`
+	KnownRuns   map[string]int    `json:"known_runs,omitempty"`
 	TraceHashes map[string]string `json:"trace_hashes,omitempty"`
 }
 
@@ -203,6 +205,16 @@ func modeExplore(t *testing.T) {
 		sched[res.SchedHash] = struct{}{}
 		if res.Unstable != "" {
 			sum.Unstable++
+		}
+		for k, v := range res.KnownHits {
+			if sum.KnownHits == nil {
+				sum.KnownHits = map[string]string{}
+				sum.KnownRuns = map[string]int{}
+			}
+			if _, ok := sum.KnownHits[k]; !ok {
+				sum.KnownHits[k] = fmt.Sprintf("run %d: %s", i, v)
+			}
+			sum.KnownRuns[k]++
 		}
 		nf := 0
 		for k, v := range res.Faults {
